@@ -1,6 +1,6 @@
 #!/usr/bin/env python3
 """Prints the markdown tables of seeded changes (one per round) from /verif/seeded/*/meta.json.
-Round 1 = <id>, round 2 = <id>b, round 3 = <id>c."""
+Round 1 = <id>, round 2 = <id>b, round 3 = <id>c, round 4 = <id>d, round 5 = <id>e."""
 import glob, json, os, re
 
 # seeds the first version of the property's check did not report (see DESIGN.md section 12 for what was added)
@@ -8,6 +8,8 @@ MISSED_FIRST = {
     1: {"C02": "quick (thorough caught it)", "C11": "", "C13": ""},
     2: {"C01": "", "C05": "quick (thorough caught it)", "C06": "", "C08": "", "C09": "", "C13": "", "C20": ""},
     3: {"C01": "", "C03": "", "C05": "", "C07": "", "C08": "", "C10": "", "C11": "", "C12": "", "C14": "", "C17": "", "C19": "", "C20": ""},
+    4: {"C01": "", "C02": "", "C03": "", "C04": "quick (thorough reaches the history at depth 6)", "C08": "", "C10": "", "C12": "", "C13": "", "C14": "C13 reported it", "C17": "", "C20": ""},
+    5: {},
 }
 
 
@@ -37,12 +39,12 @@ def row(f):
     return name, '| %s | %s | %s | %s | %s | %s | %s |' % (name, files, summ, need, base_s, demo_ok, '; '.join(det))
 
 
-rounds = {1: [], 2: [], 3: []}
+rounds = {1: [], 2: [], 3: [], 4: [], 5: []}
 for f in sorted(glob.glob('/verif/seeded/*/meta.json')):
     name = os.path.basename(os.path.dirname(f))
-    rnd = {'': 1, 'b': 2, 'c': 3}[re.sub(r'^C\d\d', '', name)]
+    rnd = {'': 1, 'b': 2, 'c': 3, 'd': 4, 'e': 5}[re.sub(r'^C\d\d', '', name)]
     rounds[rnd].append(row(f))
-for rnd in (1, 2, 3):
+for rnd in (1, 2, 3, 4, 5):
     if not rounds[rnd]:
         continue
     print('\n**Round %d** (%d changes)\n' % (rnd, len(rounds[rnd])))
@@ -51,4 +53,4 @@ for rnd in (1, 2, 3):
     for name, line in rounds[rnd]:
         print(line)
     miss = MISSED_FIRST[rnd]
-    print('\nMissed by the first version of the check that met it: %s.' % (', '.join('%s%s' % (k + {1: '', 2: 'b', 3: 'c'}[rnd], (' - ' + v) if v else '') for k, v in sorted(miss.items())) or 'none'))
+    print('\nMissed by the first version of the check that met it: %s.' % (', '.join('%s%s' % (k + {1: '', 2: 'b', 3: 'c', 4: 'd', 5: 'e'}[rnd], (' - ' + v) if v else '') for k, v in sorted(miss.items())) or 'none'))
